@@ -75,18 +75,19 @@ inductive SecResult where
   | raised (exc : String)
   deriving Repr, DecidableEq
 
+/-- `value is None` -/
+def isNone : PyVal → Bool | .null => true | _ => false
+
 /-- the body of `for field_name, field_def in section_schema.fields.items()` for one field. -/
 def validateField (env : Env) (sec : Str) (children : List (Str × PyVal)) (f : SField) : SecResult :=
-  let path := fieldPath sec f.1
   match f.2 with
   | none => .errors []
   | some cs =>
-    let value := (lookupLast f.1 children).getD .null      -- `.get()` gives None for an absent key
-    let isNone := match value with | .null => true | _ => false
-    if cs.any Constraint.isReq && isNone then .errors [⟨"E003", path, "error"⟩]
-    else if isNone then .errors []
-    else match evalChain env cs value with
-      | .errors codes => .errors (codes.map fun c => ⟨c, path, "error"⟩)
+    if cs.any Constraint.isReq && isNone ((lookupLast f.1 children).getD .null) then   -- `.get()` gives None for an absent key
+      .errors [⟨"E003", fieldPath sec f.1, "error"⟩]
+    else if isNone ((lookupLast f.1 children).getD .null) then .errors []
+    else match evalChain env cs ((lookupLast f.1 children).getD .null) with
+      | .errors codes => .errors (codes.map fun c => ⟨c, fieldPath sec f.1, "error"⟩)
       | .raised x => .raised x
 
 def validateFields (env : Env) (sec : Str) (children : List (Str × PyVal)) : List SField → SecResult
